@@ -15,19 +15,33 @@ import (
 func VerifMaskXOR(b []byte, key []byte) { internal.MaskXOR(b, key) }
 
 // VerifWindow wraps a slideWindow.
-type VerifWindow struct{ w slideWindow }
+type VerifWindow struct {
+	w    slideWindow
+	pool *internal.Pool[[]byte]
+	bits int
+}
 
 // VerifNewWindow builds a window of 2^bits bytes; pooled selects the pool-backed initialisation path.
 func VerifNewWindow(bits int, pooled bool) *VerifWindow {
-	v := new(VerifWindow)
+	v := &VerifWindow{bits: bits}
 	if pooled {
 		size := internal.BinaryPow(bits)
-		pool := internal.NewPool[[]byte](func() []byte { return make([]byte, 0, size) })
-		v.w.initialize(pool, bits)
+		v.pool = internal.NewPool[[]byte](func() []byte { return make([]byte, 0, size) })
+		v.w.initialize(v.pool, bits)
 	} else {
 		v.w.initialize(nil, bits)
 	}
 	return v
+}
+
+// Recycle returns the window's slice to its pool exactly as ReadLoop does when a connection ends and
+// initialises a new window from the same pool, as the next connection would.
+func (v *VerifWindow) Recycle() {
+	if v.pool != nil {
+		v.pool.Put(v.w.dict)
+	}
+	v.w = slideWindow{}
+	v.w.initialize(v.pool, v.bits)
 }
 
 // VerifDisabledWindow returns the zero value (a window that was never initialised).
